@@ -147,9 +147,13 @@ def translate(lines, dx, dy, dz):
     return out
 
 
+ION_ATOM_NAMES = {"FE2": "FE", "IOD": "I", "CU1": "CU", "CO3": "CO", "3CO": "CO", "MN3": "MN"}
+
+
 def ion_line(resn, xyz, chain="X", num=900, serial=9000):
-    el = resn if len(resn) <= 2 else resn[:2]
-    name = resn if len(resn) <= 2 else resn[:2]
+    """A HETATM record of a monatomic ion under its wwPDB atom name (FE2 -> FE, IOD -> I; otherwise the residue name)."""
+    name = ION_ATOM_NAMES.get(resn, resn if len(resn) <= 2 else resn[:2])
+    el = name if name[:1].isalpha() else resn[-1:]
     el2 = el[0] + el[1:].lower() if len(el) == 2 else el
     return pdbio.atom_line("HETATM", serial, name, " ", resn, chain, num, " ", xyz[0], xyz[1], xyz[2], elem=el2)
 
